@@ -195,6 +195,13 @@ pub fn cidq(rng: &mut Rng, r: &mut Runner, maxops: usize) {
                     if a != offset || b <= a || b - a > LEN {
                         r.oracle_fail(&format!("key=cidq-retired-range {resp} (offset was {offset})"));
                     }
+                    // C04: the reset token reported is the one issued with the CID that is in use afterwards
+                    if let Some((cu, _, sl)) = &st {
+                        let act = sl.get(*cu as usize).and_then(|x| x.split(':').nth(1));
+                        if act != Some(w[3]) {
+                            r.oracle_fail(&format!("key=C04-reset-token-not-of-cid-in-use insert seq={seq} rpt={rpt}: reported token {} but the CID in use afterwards (slot {cu}) carries {act:?}: {resp}", w[3]));
+                        }
+                    }
                     did_retire = true;
                 }
             }
@@ -281,6 +288,12 @@ pub fn cidq(rng: &mut Rng, r: &mut Runner, maxops: usize) {
                 // oracle: monotone, retires from the previous active sequence number, skips < LEN
                 if !malformed && (a != offset || b <= a || b - a >= LEN) {
                     r.oracle_fail(&format!("key=cidq-next-monotone {resp} (offset was {offset})"));
+                }
+                if let Some((cu, _, sl)) = parse_state(&resp) {
+                    let act = sl.get(cu as usize).and_then(|x| x.split(':').nth(1).map(|t| t.to_string()));
+                    if act.as_deref() != Some(w[0]) {
+                        r.oracle_fail(&format!("key=C04-reset-token-not-of-cid-in-use next: reported token {} but the CID in use afterwards (slot {cu}) carries {act:?}: {resp}", w[0]));
+                    }
                 }
                 did_next = true;
                 moved = true;
